@@ -24,7 +24,7 @@ def collect(res):
 def run(pid, tier, seed):
     return common.standard(pid, tier, seed, collect, TRUSTED, "symlink.py", {}, {},
                            "3 link kinds (mixin subclass, link to link, SymlinkNode) x 6 operations x 5 attribute names x 4 values",
-                           select=False)
+                           select=False, quick_search=True)
 
 
 def replay(pid, path):
